@@ -286,9 +286,8 @@ C05_Violations(r) ==
 C02_IdentsKept(r) ==
   LET pa == PlainIdx(r.tin)  pb == PlainIdx(r.tout)
       ta == TokTexts(r.in, r.tin)  tb == TokTexts(r.out, r.tout)
-      \* platform, deprecated, experimental, library: whether such a word is the directive or a name is a heuristic (exempt)
-      Portability == {<<112,108,97,116,102,111,114,109>>, <<100,101,112,114,101,99,97,116,101,100>>,
-                      <<101,120,112,101,114,105,109,101,110,116,97,108>>, <<108,105,98,114,97,114,121>>}
+      \* `library` is a reserved word in every context (exempt: the grammar does not emit it as a name any more)
+      Portability == {<<108,105,98,114,97,114,121>>}
   IN Len(pa) # Len(pb) \/ \A k \in 1..Len(r.idents) :
         \/ r.idents[k] + 1 > Len(pa)
         \/ ta[pa[r.idents[k] + 1]] = tb[pb[r.idents[k] + 1]]
